@@ -386,7 +386,9 @@ func (vlog *valueLog) rewrite(bucket uint32, fid uint32) error {
 		if diskVP.Bucket != bucket {
 			return nil
 		}
-		if diskVP.Fid > fid || (diskVP.Fid == fid && diskVP.Offset > ptr.Offset) {
+		if diskVP.Fid != fid || diskVP.Offset != ptr.Offset {
+			// The LSM references another record: a newer one, or an older one when this
+			// record lost its WAL entry in a crash. Either way this copy is not live.
 			return nil
 		}
 
